@@ -924,9 +924,7 @@ impl<'cmd> Parser<'cmd> {
             .get(&pos_counter)
             .map(|arg| arg.is_allow_hyphen_values_set() && !arg.is_last_set())
             .unwrap_or_default()
-            && short_arg
-                .clone()
-                .any(|c| !c.map(|c| self.cmd.contains_short(c)).unwrap_or_default())
+            && self.has_unknown_short(short_arg.clone())
         {
             debug!("Parser::parse_short_args: positional at {pos_counter} allows hyphens");
             return Ok(ParseResult::MaybeHyphenValue);
@@ -1030,6 +1028,20 @@ impl<'cmd> Parser<'cmd> {
             };
         }
         Ok(ret)
+    }
+
+    /// Whether a group of short flags holds something that is not a flag of this command.
+    ///
+    /// A short flag subcommand is a known flag, and what follows it is for the subcommand to judge.
+    fn has_unknown_short(&self, short_arg: clap_lex::ShortFlags<'_>) -> bool {
+        for c in short_arg {
+            match c {
+                Ok(c) if self.cmd.contains_short(c) => {}
+                Ok(c) if self.cmd.find_short_subcmd(c).is_some() => return false,
+                _ => return true,
+            }
+        }
+        false
     }
 
     fn parse_opt_value(
